@@ -3,6 +3,7 @@ package main
 import (
 	"fmt"
 	"go/token"
+	"go/types"
 	"sort"
 	"strings"
 
@@ -151,6 +152,44 @@ func c18Check(c *Ctx, p *Prog, m *Model) {
 							if call, isC := res.(*ssa.Call); !isC || calleeOf(call) != cp {
 								ok = false
 							}
+						}
+						// a list result is built from checkpath results: it is never the argument list itself
+						if _, isSl := res.Type().Underlying().(*types.Slice); isSl {
+							seen := map[ssa.Value]bool{}
+							var walk func(v ssa.Value)
+							walk = func(v ssa.Value) {
+								v = strip(v)
+								if seen[v] {
+									return
+								}
+								seen[v] = true
+								switch y := v.(type) {
+								case *ssa.Parameter:
+									ok = false
+								case *ssa.Phi:
+									for _, e := range y.Edges {
+										walk(e)
+									}
+								case *ssa.Slice:
+									walk(y.X)
+								case *ssa.UnOp:
+									if al, isAl := y.X.(*ssa.Alloc); isAl && y.Op == token.MUL {
+										for _, ref := range *al.Referrers() {
+											if st, isSt := ref.(*ssa.Store); isSt && st.Addr == ssa.Value(al) {
+												walk(st.Val)
+											}
+										}
+									}
+								case *ssa.Call:
+									if isBuiltinCall(y, "append") {
+										walk(y.Common().Args[0])
+										if sl, isS2 := y.Common().Args[1].Type().Underlying().(*types.Slice); isS2 && types.Identical(sl, res.Type().Underlying()) {
+											walk(y.Common().Args[1]) // append(ret, files...) hands the raw list on
+										}
+									}
+								}
+							}
+							walk(res)
 						}
 					}
 				case *ssa.Store:
